@@ -318,7 +318,7 @@ func init() {
 				return one(st, boolVal(f))
 			}
 		}
-		return one(st, boolVal(tOr(tEq(a, b), tAnd(tEq(tApp("slen", a), "0"), tEq(tApp("slen", b), "0")))))
+		return one(st, boolVal(tOr(tEq(a, b), tAnd(tEq(tApp("slen64", a), bvLit(0, 64)), tEq(tApp("slen64", b), bvLit(0, 64))))))
 	}
 	intrinsicsByName["strings.Contains"] = func(e *Env, st *State, args []Val, rt types.Type, c *ssa.CallCommon) []Out {
 		if lit, ok := e.litContent(e.term(st, args[1])); ok && lit == "/" {
@@ -333,10 +333,11 @@ func init() {
 		e.trusted["sha256.Sum256: deterministic function with 32-byte result"]++
 		a := e.term(st, args[0])
 		r := e.D.uf("sha256", []string{sStr}, sStr, a)
-		st.define(tEq(tApp("slen", r), "32"))
+		st.define(tEq(tApp("slen64", r), bvLit(32, 64)))
 		st.define(tNot(tEq(r, "nilStr")))
 		return one(st, e.wrapTerm(rt, r))
 	}
+	intrinsicsByName["github.com/tendermint/tendermint/crypto/tmhash.Sum"] = intrinsicsByName["crypto/sha256.Sum256"]
 	intrinsicsByName["github.com/cosmos/cosmos-sdk/types.Uint64ToBigEndian"] = func(e *Env, st *State, args []Val, rt types.Type, c *ssa.CallCommon) []Out {
 		segs := []Seg{{K: "be64", T: e.term(st, args[0])}}
 		return one(st, Val{K: kTerm, Typ: rt, Sort: sStr, T: e.segsTerm(segs), Segs: segs})
